@@ -137,3 +137,7 @@ def dt_offset(d):
 def eu_offset(u):
     from specs.dt_spec import eu_offset as _eu
     return _eu(u)
+
+
+def item_values(items):
+    raise NotImplementedError("ghost item_values has no native reading (awaitables are consumed by the call)")
